@@ -115,6 +115,13 @@ fn run_line(line: &str) -> String {
             }
             format!("ok {} limit={} consumed={} calls={}", hex(&out), t.limit(), t.get_ref().pos, sizes.len())
         }
+        // rte <prefix-hex> <chunk> <data-hex> : read_to_end into a vector that already holds the prefix
+        "rte" => {
+            let mut src = Frag { data: unhex(w[3]), pos: 0, chunk: w[2].parse().unwrap() };
+            let mut out = unhex(w[1]);
+            let r = src.read_to_end(&mut out);
+            format!("{} {} consumed={}", if r.is_ok() { "ok" } else { "err" }, hex(&out), src.pos)
+        }
         // wa <room> <data-hex> : write_all into a fixed slice
         "wa" => {
             let mut room = vec![0xEEu8; w[1].parse().unwrap()];
